@@ -84,7 +84,7 @@ def run(tier, seed):
     # (instantiated) signature - contracts shared with C06
     ops_files = [os.path.join(VERIF, "contracts", f) for f in ("node_port.py", "tys.py", "ops.py")]
     ops_targets = ["hugr.ops." + c + ".num_out" for c in ("Input", "DFG", "CFG", "Conditional", "TailLoop", "DataflowBlock", "CallIndirect", "Call", "UnpackTuple")]
-    standard_flow(res, FILES, TARGETS, concretize, bounded_modules=[("bounded.c16", 120, 600)], more=[(ops_files, ops_targets),
+    standard_flow(res, FILES, TARGETS, concretize, bounded_modules=[("bounded.c16", 900, 600)], more=[(ops_files, ops_targets),
                         # the handle add_op returns knows the count the operation reports after the wiring (contract shared with C01)
                         ([os.path.join(VERIF, "contracts", f) for f in ("node_port.py", "build_io.py")], ["hugr.build.dfg.DfBase.add_op"]),
                         ([os.path.join(VERIF, "contracts", f) for f in ("node_port.py", "build_call.py")], ["hugr.build.dfg.DfBase.call"]),
